@@ -258,15 +258,17 @@ declaration — and on the head view the one of the head. PARTIAL: hypotheses on
 are `CasmStep` (a Sierra class is declared once, migrations only under protocol ≥ 0.14.1 and not of
 a class declared by the same diff) and `MigOwnHash`: the hash a migration carries is the blake2s
 hash that came with the class's declaration. Without the latter the statement is false
-(`casm_migration_foreign_hash_counterexample`): juno ignores the hash in `MigratedClasses`. -/
-theorem casm_read_partial {σ : Type} (be : Backend σ) (ops : List Op) (nd : Node σ)
+(`casm_migration_foreign_hash_counterexample`): juno ignores the hash in `MigratedClasses`
+(`be.migFix = false`: the block store of the tree, both `newBackend cfg` with `cfg.migValFix = false`
+and `legacyBackend`). -/
+theorem casm_read_partial {σ : Type} (be : Backend σ) (hmf : be.migFix = false) (ops : List Op) (nd : Node σ)
     (hrun : run be (Node.init be) ops = some nd)
     (hok : OpsOK (fun ch d => CasmStep ch d ∧ MigOwnHash ch d) ops []) (hfr : OpsFresh ops []) (c : CHash) :
     (∀ n, n < nd.blocks.length → nd.readCasm be (.num n) c = some (casmRes (absAt nd.chain n) c)) ∧
     (nd.blocks ≠ [] → nd.readCasm be .head c = some (casmRes (absOf nd.chain) c)) := by
   have hok' : OpsOK (fun ch d => CasmStep ch d ∧ MigVal ch d) ops [] :=
     OpsOK.mono (fun ch d h => ⟨h.1, migVal_of_ownHash ch d h.2⟩) ops [] hok
-  have hinv := run_minv be ops (Node.init be) nd minv_init hok' hrun
+  have hinv := run_minv be hmf ops (Node.init be) nd minv_init hok' hrun
   have hidx := run_idxInv _ ops _ nd (idxInv_init _) hfr hrun
   constructor
   · intro n hn
